@@ -811,6 +811,11 @@ package fsutil
 //@   ensures include_decides: result1 == nil && fs.includeMatcher != nil && fs.excludeMatcher == nil ==> cnt(MatchRes) > old(cnt(MatchRes)) && arg(MatchRes, 0) == fs.includeMatcher && arg(MatchRes, 1)
 //@   ensures exclude_decides: result1 == nil && fs.excludeMatcher != nil ==> cnt(MatchRes) > old(cnt(MatchRes)) && arg(MatchRes, 0) == fs.excludeMatcher && !arg(MatchRes, 1)
 //@   at call FS.Open: visible: (fs.includeMatcher == nil && fs.excludeMatcher == nil) || cnt(MatchRes) > old(cnt(MatchRes))
+// KNOWN FINDING F22 (not repaired): the map function also hides entries (MapResultExclude /
+// MapResultSkipDir), but Open never consults it: a path the filtered walk does not report can be
+// opened and read. The statement-derived obligation: with a map function, a successful Open has
+// consulted it.
+//@   ensures map_consulted: result1 == nil && fs.mapFn != nil ==> cnt(MapFn) > old(cnt(MapFn))
 
 // Re-canonicalising hard links after filtering: a link whose source was not
 // seen in this (filtered) walk is forwarded as a plain file and becomes the
